@@ -273,7 +273,11 @@ def ambiguous(m, pkt, e=None):
       z.append("pcp-untagged")
   # (SNAP with a non-zero OUI is NOT ambiguous: the SNAP protocol id counts only for OUI 0x000000,
   #  every other 802.3 frame has dl_type 0x05ff -- openflow.h OFP_DL_TYPE_NOT_ETH_TYPE)
-  for n in ("vlan+llc", "arp-op>255", "arp-plen", "arp-odd", "truncated"):
+  # (802.3 inside a VLAN tag is NOT ambiguous either: Table 3 takes the VLAN fields from the tag, the flow
+  #  chart of section 3.4 continues with the type that follows the tag, and what follows is judged like the
+  #  untagged frame: SNAP with OUI 0 -> SNAP type, every other 802.3 frame -> 0x05ff; a length field is never
+  #  an Ethernet type.  The note "vlan+llc" only labels the class.)
+  for n in ("arp-op>255", "arp-plen", "arp-odd", "truncated"):
     if n in notes:
       z.append(n)
   if e["dl_type"] == frames.ETH_IP and e["nw_proto"] not in (None, 1, 6, 17) and \
